@@ -20,7 +20,8 @@ class Env(object):
         self.orm = orm
         self.model = model
         d = dbapi.scratch_dir()
-        self.path = os.path.join(d, 'sx-%s-%d.sqlite' % (model.name, os.getpid()))
+        Env._n = getattr(Env, '_n', 0) + 1
+        self.path = os.path.join(d, 'sx-%s-%d-%d.sqlite' % (model.name, os.getpid(), Env._n))
         for suffix in ('', '-journal', '-wal', '-shm'):
             if os.path.exists(self.path + suffix): os.unlink(self.path + suffix)
         self.db = db = orm.Database()
@@ -547,7 +548,7 @@ class Exec(object):
     def op_r_proj(self, ename, attr):
         return sorted(self.cv(list(self.orm.select('(x, x.%s) for x in E' % attr, {'E': self.env.E[ename]}, {}))), key=repr)
     def op_r_todict(self, label):
-        return self.resolve(label).to_dict(with_collections=True)
+        return self.resolve(label).to_dict(with_collections=True, with_lazy=True)
     def op_r_attr(self, label, attr):
         obj = self.resolve(label)
         if not hasattr(type(obj), attr): raise Skip(label)
